@@ -339,6 +339,46 @@ func famC19(r *Run) {
 			r.addCli("G-cli-model", []string{"@"}, viaFile, &in, code, stdout)
 		}
 	}
+	// integers beyond 2^53 and empty lines inside the input: same answer on both channels, equal to the library's
+	{
+		inputs, exprs := cliBigAndBlank()
+		for _, input := range inputs {
+			for _, expr := range exprs {
+				for _, viaFile := range []bool{false, true} {
+					args := []string{expr}
+					stdin := input
+					if viaFile {
+						f := filepath.Join(dir, "in.json")
+						ioutil.WriteFile(f, []byte(input), 0o644)
+						args = []string{"-input", f, expr}
+						stdin = ""
+					}
+					stdout, stderr, code := runJpgo(bin, args, stdin)
+					desc := fmt.Sprintf("viaFile=%v input=%q exit=%d stdout=%q stderr=%q", viaFile, input, code, stdout, stderr)
+					var data interface{}
+					inputErr := json.Unmarshal([]byte(input), &data)
+					ok := false
+					var want []byte
+					if inputErr == nil {
+						if lib := observeSearch(expr, data); lib.Kind == "val" {
+							var merr error
+							want, merr = json.MarshalIndent(lib.Value, "", "  ")
+							ok = merr == nil
+						}
+					}
+					if ok {
+						if code != 0 || stdout != string(want)+"\n" {
+							r.violate("G-cli-numbers-lines", expr, nil, "jpgo's output is not the JSON serialisation of the library's result on the decoded input", desc+" want="+string(want))
+						}
+					} else if code == 0 || stdout != "" {
+						r.violate("G-cli-numbers-lines", expr, nil, "invalid input or evaluation error, but jpgo exits with status 0 or prints on standard output", desc)
+					}
+					in := input
+					r.addCli("G-cli-model", []string{expr}, viaFile, &in, code, stdout)
+				}
+			}
+		}
+	}
 	// usage errors and unreadable file
 	for _, a := range [][]string{{}, {"a", "b"}, {"-input", filepath.Join(dir, "missing.json"), "a"}} {
 		stdout, _, code := runJpgo(bin, a, "{}")
